@@ -1,31 +1,31 @@
 CONSTANTS
-  Procs = {1, 2}
+  Procs = {1}
   Clients = {"c1"}
   Forms = {"v4"}
-  CCs = {"a", "b"}
-  SVs = {"bare", "good"}
+  CCs = {}
+  SVs = {}
   Shorts = {}
-  Protos = {"udp", "tcp"}
-  Questions = {"fresh"}
-  Entries = {"msg"}
+  Protos = {"udp"}
+  Questions = {"big1"}
+  Entries = {"msg", "wire", "inline"}
   Exempts = {}
   Odds = {FALSE}
-  Burst = 2
+  Burst = 3
   StoreCap = 2
-  EntryBurst = 0
-  BigQs = {}
+  EntryBurst = 1
+  BigQs = {"big1"}
   MaxOps = 3
   MaxPend = 1
   MaxAge = 2
   TickSet = {}
   CleanSet = {}
-  Atomic = "free"
+  Atomic = "call"
   KeyByForm = TRUE
   ChargeOnReplay = FALSE
   EchoCached = FALSE
   ReuseEvicted = FALSE
   SharedKey = FALSE
-  ChargeBeforeFit = FALSE
+  ChargeBeforeFit = TRUE
 SPECIFICATION Spec
 INVARIANTS TypeOK OneChargePerQuestion DropIsSilent ClientWithinBudget NoSharedBucket RememberedIsOwn ExemptNeverLimited
   ReplyCookieIsOwn AnswerCarriesCookie BadCookieSound VerifiedIsFree HandoffOnlyInline SameOutcomeAcrossEntries
